@@ -24,8 +24,16 @@ RULE = (
 FETCH_OPS = ("get", "gets", "gat", "gats", "get_many", "gets_many", "stats")
 
 
+# the same item named twice in one multi-key call (str and bytes spelling): as many replies as commands
+EXTRA = [
+    ops.Op("set_many", {"a": b"1", b"a": b"2"}, noreply=False),
+    ops.Op("delete_many", ["a", b"a"], noreply=False),
+    ops.Op("get_many", ["a", b"a", "b"]),
+]
+
+
 def _alphabet():
-    return ops.alphabet()
+    return ops.alphabet() + EXTRA
 
 
 def _probes(alpha):
